@@ -341,7 +341,9 @@ impl<'a> Interp<'a> {
             if variant_name(r, v) == s {
                 return match &v.body {
                     VBody::Unit => Ok(enum_value(r, v, Value::Null)),
-                    VBody::Newtype(t) => match self.from_none(t) {
+                    // the field's own default is its value-for-absent, as for a field of a struct; else the
+                    // inner type is asked
+                    VBody::Newtype(t) => match if v.nt_default == Def::Trait { Some(zero(self.recvs, t)) } else { self.from_none(t) } {
                         Some(inner) => Ok(enum_value(r, v, inner)),
                         None => Err(vec![leaf(LeafKind::BadValue, Where::Nowhere, s)]),
                     },
